@@ -350,13 +350,13 @@ class RsEmitter:
             rt = self.extern_ret(m.ret)
             out.append("crate::vf::log(format!(\"RET %s#%d {}\", %s));" % (m.abi_name, n, self.fmt("r_", rt, None, st["ret"])))
             self.adopt_stmts("r_", rt, st["ret"], out)
-        for p in post:
-            if p[0] == "mutslice":
-                _, a, t, pname = p
-                out.append("crate::vf::log(format!(\"MUT %s {}\", crate::vf::c(&%s[..])));" % (pname, a))
-        for pn, pt in m.params:
-            if pt[0] == "slice" and pt[2] and not any(p[0] == "mutslice" and p[3] == pn for p in post):
-                out.append("crate::vf::log(\"MUT %s []\".to_string());" % pn)
+        for pn, pt in m.params:                      # in parameter order, as the script predicts them
+            if pt[0] == "slice" and pt[2]:
+                mine = [p for p in post if p[0] == "mutslice" and p[3] == pn]
+                if mine:
+                    out.append("crate::vf::log(format!(\"MUT %s {}\", crate::vf::c(&%s[..])));" % (pn, mine[0][1]))
+                else:
+                    out.append("crate::vf::log(\"MUT %s []\".to_string());" % pn)
         for p in post:
             if p[0] == "write_buffer":
                 w = p[1]
